@@ -205,6 +205,18 @@ pub fn read_scenarios(path: &str) -> Vec<Value> {
         .collect()
 }
 
+/// the k-th (0-based) non-empty line of the scenario file
+pub fn read_scenario_at(path: &str, k: usize) -> Value {
+    let f = File::open(path).unwrap_or_else(|e| panic!("cannot open scenarios {path}: {e}"));
+    let l = BufReader::new(f)
+        .lines()
+        .map(|l| l.expect("read"))
+        .filter(|l| !l.trim().is_empty())
+        .nth(k)
+        .unwrap_or_else(|| panic!("no scenario {k} in {path}"));
+    serde_json::from_str(&l).unwrap_or_else(|e| panic!("bad scenario line: {e}: {l}"))
+}
+
 /// command line: <scenarios> <trace_out> [--from K] [--append]
 pub struct Args {
     pub scenarios: String,
@@ -256,8 +268,9 @@ pub fn isolated_main(reset_ev: &str, end_ev: &str, default_timeout_ms: u64, para
         open_out(&argv[2], false);
         set_autoflush(true);
         std::panic::set_hook(Box::new(|_| {}));
-        let scs = read_scenarios(&argv[1]);
-        let sc = &scs[k];
+        // only this child's own line is parsed: a child of a batch of some thousand scenarios spent most of its
+        // life (0.3 s of CPU) parsing everybody else's
+        let sc = &read_scenario_at(&argv[1], k);
         let r = std::panic::catch_unwind(std::panic::AssertUnwindSafe(|| run_one(sc)));
         if let Err(e) = r {
             rec(json!({"ev": "died", "how": "panic", "msg": panic_msg(&e), "scenario": sc["id"], "step": 0}));
@@ -339,8 +352,18 @@ pub fn isolated_main(reset_ev: &str, end_ev: &str, default_timeout_ms: u64, para
             // killed for their time limit although they had written nothing at all, or had already written their
             // last record (not reproduced alone; the runtime is not involved in either case). A child that ran
             // into its limit is started once more; a scenario that really hangs does so again.
-            if how.as_deref() == Some("hang") && attempt < 2 {
-                eprintln!("NOTE scenario {} ran into its time limit ({} record(s) written) and is run again", sc["id"], text.lines().count());
+            // (measured under load: such a child is runnable, single-threaded and still reading its scenario
+            // file after seconds of CPU time - the virtual machine stalls it, the code under test has not begun.)
+            // A child that wrote nothing has not started its scenario - it is started again, up to four times; one
+            // that wrote its scenario's last record has finished it, however long the process then took to leave.
+            let nrec = text.lines().count();
+            let ended = text.lines().any(|l| l.contains(&format!("\"ev\":\"{end_ev}\"")));
+            if how.as_deref() == Some("hang") && ended {
+                eprintln!("NOTE scenario {} had written its last record when its time limit passed: taken as finished", sc["id"]);
+                how = None;
+            }
+            if how.as_deref() == Some("hang") && (attempt < 2 || (nrec == 0 && attempt < 4)) {
+                eprintln!("NOTE scenario {} ran into its time limit ({nrec} record(s) written) and is run again", sc["id"]);
                 continue;
             }
             break (status, how, err, text);
